@@ -70,12 +70,13 @@ type World struct {
 	SerialCoincidence bool
 	// Coincide: 0 all quote fields independent; 1 owner/config identifiers and RTMR2/3 zero; 2 equal-sized
 	// neighbouring fields equal; 3 one pair of 48-byte TD fields equal
-	Coincide    int
-	NetLat      int // 0: fetches are instant; n>0: PCS latency profile n (see LatencyProfile)
-	HdrEsc      int // which of the equivalent URL encodings the PCS uses for issuer-chain headers
-	AKI         int // CertSpec.AKI form used by every non-root certificate of PKI A
-	LevelIdx    int // index of the TCB level the platform matches (honest: UpToDate)
-	ModLevelIdx int // index of the matching module level, -1 when the module branch is off
+	Coincide     int
+	NetLat       int  // 0: fetches are instant; n>0: PCS latency profile n (see LatencyProfile)
+	FutureFields bool // the signed documents carry members unknown to today's verifiers
+	HdrEsc       int  // which of the equivalent URL encodings the PCS uses for issuer-chain headers
+	AKI          int  // CertSpec.AKI form used by every non-root certificate of PKI A
+	LevelIdx     int  // index of the TCB level the platform matches (honest: UpToDate)
+	ModLevelIdx  int  // index of the matching module level, -1 when the module branch is off
 }
 
 // Indexes into World.Times.
@@ -243,6 +244,10 @@ func NewWorld(r Rand, cfg Cfg) *World {
 	// ---- collateral contents
 	if !cfg.NoPCS {
 		w.HdrEsc = []int{0, 0, 1, 2}[r.Draw(4)]
+		// in a third of the worlds the signed documents carry members that the library does not know yet
+		if r.Chance(1, 3) {
+			w.FutureFields = true
+		}
 		// a third of the worlds have a network in which every fetch takes (simulated) time
 		if cfg.NetLat > 0 {
 			w.NetLat = cfg.NetLat
@@ -386,6 +391,9 @@ func (w *World) genCollateral(r Rand) {
 			d.Modules = append(d.Modules, mi)
 		}
 	}
+	if w.FutureFields {
+		d.Future = `,"tcbRecoveryWindowDays":30,"advisoryDetails":[{"id":"INTEL-SA-00000","severity":"low"}]`
+	}
 	w.Tcb = d
 
 	// QE Identity
@@ -416,6 +424,9 @@ func (w *World) genCollateral(r Rand) {
 	}
 	for i := range qe.Levels {
 		qe.Levels[i].Date = RandTcbDate(r)
+	}
+	if w.FutureFields {
+		qe.Future = `,"tcbRecoveryWindowDays":30`
 	}
 	w.QE = qe
 
@@ -535,5 +546,5 @@ func (w *World) Describe() string {
 	if w.Tcb != nil {
 		nl = len(w.Tcb.Levels)
 	}
-	return fmt.Sprintf("epoch=%s ca=%s auth=%d extra=%d chain=%d levels=%d match=%d module=%s coincide=%d aki=%d netlat=%d", w.Epoch.Format("2006-01-02"), w.CAID, len(w.Quote.Auth), len(w.Quote.Extra), len(w.Quote.Chain), nl, w.LevelIdx, mod, w.Coincide, w.AKI, w.NetLat)
+	return fmt.Sprintf("epoch=%s ca=%s auth=%d extra=%d chain=%d levels=%d match=%d module=%s coincide=%d aki=%d netlat=%d future=%v", w.Epoch.Format("2006-01-02"), w.CAID, len(w.Quote.Auth), len(w.Quote.Extra), len(w.Quote.Chain), nl, w.LevelIdx, mod, w.Coincide, w.AKI, w.NetLat, w.FutureFields)
 }
